@@ -18,8 +18,7 @@ Theorem inode_fail_iff : forall c t,
   c_cancel c = NoCancel -> c_fatal c = false -> no_xpanic c -> c_paths c = [] -> tree_quiet c t = true ->
   (0 < c_max_inodes c)%Z ->
   ((exists st, fs_result c t = WOk st Continue) <-> (Z.of_nat (visits_needed c t) <= c_max_inodes c)%Z) /\
-  ((c_max_inodes c < Z.of_nat (visits_needed c t))%Z ->
-     (exists st, fs_result c t = WOk st (Abort AbInodes)) \/ (exists st, fs_result c t = WPanic st PcSlice)).
+  ((c_max_inodes c < Z.of_nat (visits_needed c t))%Z -> exists st, fs_result c t = WOk st (Abort AbInodes)).
 Proof. exact inode_fail_iff_lemma. Qed.
 Print Assumptions inode_fail_iff.
 
@@ -54,31 +53,16 @@ Theorem cancel_reports_failure : forall c k t,
   c_cancel c = CancelAtVisit k -> (c_max_inodes c <= 0)%Z -> c_fatal c = false -> no_xpanic c -> c_paths c = [] ->
   tree_quiet c t = true ->
   ((exists st, fs_result c t = WOk st Continue) <-> (visits_needed c t < k)%nat) /\
-  ((k <= visits_needed c t)%nat ->
-     (exists st, fs_result c t = WOk st (Abort AbCtx)) \/ (exists st, fs_result c t = WPanic st PcSlice)).
+  ((k <= visits_needed c t)%nat -> exists st, fs_result c t = WOk st (Abort AbCtx)).
 Proof. exact cancel_reports_failure_lemma. Qed.
 Print Assumptions cancel_reports_failure.
 
-(* REFUTED: limits and cancellation never panic.  With UseGitignore an abort at a directory (inode limit,
-   cancelled context) returns from handleFile before the push; the deferred pops slice [: -1] at the root. *)
-Theorem gitignore_abort_panics_refuted :
-  exists c t, wf_tree t = true /\ fault_free t = true /\ c_paths c = [] /\ (forall e p, c_extract c e p <> XPanic) /\
-    exists st, fs_result c t = WPanic st PcSlice.
-Proof. exact gitignore_abort_panics_lemma. Qed.
-Print Assumptions gitignore_abort_panics_refuted.
-
-Theorem gitignore_cancel_panics_refuted :
-  exists c t, wf_tree t = true /\ fault_free t = true /\ c_paths c = [] /\ c_max_inodes c = 0%Z /\
-    exists st, fs_result c t = WPanic st PcSlice.
-Proof. exact gitignore_cancel_panics_lemma. Qed.
-Print Assumptions gitignore_cancel_panics_refuted.
-
-(* on the domain D = UseGitignore off: whatever the trees, faults, limits, cancellation point, requested paths and
-   number of roots, Run never panics (extractors that do not panic themselves) *)
-Theorem limits_never_panic_on_D : forall c roots,
-  c_gitignore c = false -> no_xpanic c -> forall st pc, run c roots <> RPanic st pc.
-Proof. exact run_never_panics_without_gitignore. Qed.
-Print Assumptions limits_never_panic_on_D.
+(* whatever the trees, faults, limits, cancellation point, requested paths and number of roots, with or without
+   UseGitignore, Run never panics (extractors that do not panic themselves) *)
+Theorem limits_never_panic : forall c roots,
+  no_xpanic c -> forall st pc, run c roots <> RPanic st pc.
+Proof. exact run_never_panics. Qed.
+Print Assumptions limits_never_panic.
 
 (* non-vacuity *)
 Definition c_lim (n : Z) : cfg := with_limits base_cfg n 0 false NoCancel.
@@ -90,3 +74,9 @@ Example limit_example :
   (exists st, fs_result (c_lim 3) t_lim = WOk st (Abort AbInodes)) /\
   length (visits (s_events (rres_state (run (c_lim 3) [t_lim])))) = 3%nat.
 Proof. vm_compute. repeat split; eexists; reflexivity. Qed.
+
+(* the former panic witnesses as regression examples: UseGitignore + limit / cancellation at a directory *)
+Example gitignore_abort_examples :
+  (exists st, fs_result (with_limits (with_gitignore base_cfg pat_a) 1 0 false NoCancel) (Dc DOT [Dc nA []]) = WOk st (Abort AbInodes)) /\
+  (exists st, fs_result (with_limits (with_gitignore base_cfg pat_a) 0 0 false (CancelAtVisit 0)) (Dc DOT [Dc nA []]) = WOk st (Abort AbCtx)).
+Proof. vm_compute. split; eexists; reflexivity. Qed.
